@@ -69,13 +69,15 @@ def snake_simple(s):
 ASYNC_FORCED = "async-abi-forced-on-sync-function"
 
 
-def classify(backend, tok, allexp_names, allimp=frozenset()):
-    """stable witness class of a declaration that the spec rejects"""
+def classify(backend, tok, allexp_names, allimp=frozenset(), forced=False):
+    """stable witness class of a declaration that the spec rejects.  `forced`: in this run the
+    configuration selects the async ABI for at least one function whose WIT type is not async
+    (only then can a rejected async name belong to the known class ASYNC_FORCED)."""
     p = tok.split(":")
     if p[0] == "E":
         name = unhx(p[1])
         for pre in ("[callback][async-lift]", "[async-lift]"):
-            if name.startswith(pre) and name[len(pre):] in allexp_names:
+            if forced and name.startswith(pre) and name[len(pre):] in allexp_names:
                 return ASYNC_FORCED
         if backend == "c" and "#[dtor]" in name:
             pre, r = name.split("#[dtor]", 1)
@@ -95,9 +97,9 @@ def classify(backend, tok, allexp_names, allimp=frozenset()):
         return "csharp-future-stream-intrinsic-names"
     if backend == "csharp" and unhx(p[1]) == "[export]$root" and name.startswith(("[resource-new]", "[resource-rep]")):
         return "csharp-world-resource-treated-as-exported"
-    if name.startswith("[async-lower]") and (p[1], name[len("[async-lower]"):]) in allimp:
+    if forced and name.startswith("[async-lower]") and (p[1], name[len("[async-lower]"):]) in allimp:
         return ASYNC_FORCED
-    if name.startswith("[task-return]") and unhx(p[1]).startswith("[export]"):
+    if forced and name.startswith("[task-return]") and unhx(p[1]).startswith("[export]"):
         m = unhx(p[1])[len("[export]"):]
         f = name[len("[task-return]"):]
         if (f if m == "$root" else m + "#" + f) in allexp_names:
@@ -342,6 +344,8 @@ def run(c):
                 stC["first_mismatches"].append({"case": cid, "backend": b, "variant": v, "problems": problems[:4], "wit": src if origin != "tests/codegen" else src})
         # ---- D: the property on the implementation's declarations
         allexp_names = {unhx(t.split(":")[1]) for t in allE}
+        # (f KIND RES ITEM WITASYNC SEL …): sync-typed function selected async by this run's configuration
+        forced = re.search(r"\(f \w+ \S+ \S+ 0 1 ", d["desc"]) is not None
         allimp = {(t.split(":")[1], unhx(t.split(":")[2])) for t in allI}
         fails = []
         for t, x, vd in zip(toks, good, verdicts):
@@ -349,7 +353,7 @@ def run(c):
             if x["kind"] == "I" and not x["referenced"]:
                 c.cov.setdefault("unreferenced_misnamed_imports", collections.Counter())[f"{b}:{FS_RE.match(x['name']).group(3) if FS_RE.match(x['name']) else x['name'][:30]}"] += 1
                 continue
-            fails.append((classify(b, t, allexp_names, allimp), "declared " + show_token(t) + " is not assigned by the component model to any item of the world" + (" (silently ignored export)" if t[0] == "E" else "")))
+            fails.append((classify(b, t, allexp_names, allimp, forced), "declared " + show_token(t) + " is not assigned by the component model to any item of the world" + (" (silently ignored export)" if t[0] == "E" else "")))
         for r in req - set(ext_exports):
             fails.append((f"required-export-missing:{b}", "required " + show_token(r) + " is not exported"))
         d["fails"] = fails
